@@ -2,7 +2,7 @@
 import absint
 import q
 from mir import Agg, Bin, Call, Const, Named, Var
-from rules.common import expect_defs, has_fact, loop_passes, must_pass
+from rules.common import expect_defs, has_fact, loop_passes, must_pass, opt_fact
 from rules.typesrules import field_writers
 
 B = "builder::SourceMapBuilder::"
@@ -10,6 +10,9 @@ RWM = "types::SourceMap::rewrite_with_mapping"
 FLAT = "types::SourceMapIndex::flatten"
 ILOOKUP = "types::SourceMapIndex::lookup_token"
 HREW = "hermes::SourceMapHermes::rewrite"
+
+
+LAM = "\u03bb"
 
 
 def named(body, pred):
@@ -157,11 +160,11 @@ def contents_predicates(ctx, rule):
               "has_source_contents(id) is exactly get_source_contents(id).is_some()", detail=str(calls))
     g = ctx.body(B + "get_source_contents")
     calls = [q.shape(g.expr_of_call(t)) for bi, t in g.calls()]
-    ok = "slice::get(arg1.source_contents,cast<usize>(arg2))" in calls and any(c.startswith("Option::and_then(slice::get(arg1.source_contents,cast<usize>(arg2)),closure:") for c in calls)
-    ctx.check(ok, rule, g.path, "get:flatten-option", "get_source_contents(id) is Some only when the slot exists *and* holds contents (Option<Option<_>> flattened with and_then)", detail=str(calls))
-    cl = ctx.facts.body(B + "get_source_contents::{closure#0}", required=False)
-    inner = [q.shape(cl.expr_of_call(t)) for bi, t in cl.calls()] if cl else []
-    ctx.check(any(c.startswith("Option::map(Option::as_ref(arg2),closure:") for c in inner), rule, g.path, "get:inner-as_ref", "an empty slot (None) reads as no contents", detail=str(inner))
+    rets = [sh for sh, _, _ in q.def_shapes(g, 0, {})]
+    want = ["Option::and_then(slice::get(arg1.source_contents,cast<usize>(arg2)),%s(Option::map(Option::as_ref(p1),%s(p1[RangeFull{}]))))" % (LAM, LAM),
+            "Option::and_then(slice::get(arg1.source_contents,cast<usize>(arg2)),%s(Option::as_deref(p1)))" % LAM]
+    ctx.check(len(rets) == 1 and rets[0] in want, rule, g.path, "get:flatten-option",
+              "get_source_contents(id) is Some only when the slot exists *and* holds contents (Option<Option<_>> flattened with and_then; an empty slot reads as no contents)", detail=str(rets))
     sg = ctx.body("types::SourceMap::get_source_contents")
     calls = [q.shape(sg.expr_of_call(t)) for bi, t in sg.calls()]
     ok = any(c == "Option::and_then(slice::get(arg1.sources_content,cast<usize>(arg2)),fn:Option::as_ref)" for c in calls)
@@ -214,31 +217,21 @@ def hermes_permutation(ctx, rule):
         return
     roles = {mp[0]: "mapping"}
     shapes = [sh for l in fm for sh, site, _ in q.def_shapes(b, l, roles)]
-    ok = any(q.wild("Iterator::collect(Iterator::map(slice::iter(mapping),closure:rewrite::{closure#0}))", s) for s in shapes)
-    ctx.check(ok, rule, fn, "function_maps:by-mapping", "function maps are rebuilt by mapping over the old-id mapping", detail=str(shapes)[:300])
+    TAKE = "%s(Option::and_then(slice::get_mut(%%s,cast<usize>(p1)),fn:Option::take))" % LAM
+    want = "Iterator::collect(Iterator::map(slice::iter(mapping),%s))" % (TAKE % "^var:Vec<Option<HermesFunctionMap>>")
+    ok = want in shapes
+    ctx.check(ok, rule, fn, "function_maps:by-mapping", "function maps are rebuilt by mapping over the old-id mapping; each entry is looked up with the non-panicking get_mut at the old id and taken", detail=str(shapes)[:400])
     # the permutation must not be skipped when the lengths are equal (the common case: one entry
     # per source): the only guard allowed around it is mapping.len() <= function_maps.len()
-    sites = [site for l in fm for sh, site, _ in q.def_shapes(b, l, roles) if "closure:rewrite::{closure#0}" in sh]
+    sites = [site for l in fm for sh, site, _ in q.def_shapes(b, l, roles) if sh == want]
     for site in sites:
         conds = [f for f in q.facts_at(b, site[0], {**roles, **{l: "fmaps" for l in fm}}) if f.op in ("Lt", "Le", "Eq", "Ne", "true", "false")]
         bad = [f for f in conds if f.key() not in (("Le", "Vec::len(mapping)", "Vec::len(fmaps)"),)]
         ctx.check(not bad, rule, fn, "remap:guard", "the remap is guarded at most by mapping.len() <= function_maps.len() (it also runs when the lengths are equal)", ctx.site(b, *site), detail=str(bad))
-    c0 = ctx.facts.body(HREW + "::{closure#0}", required=False)
-    rets = []
-    if c0 is not None:
-        rets = [q.shape(c0.expr_of_call(t)) for bi, t in c0.calls() if t["dest"]["l"] == 0]
-    ctx.check(rets == ["Option::and_then(slice::get_mut(^var:Vec<Option<HermesFunctionMap>>,cast<usize>(arg2)),fn:Option::take)"], rule, fn, "function_maps:get_mut",
-              "each entry is looked up with the non-panicking get_mut at the old id and taken", detail=str(rets))
-    c1 = ctx.facts.body(HREW + "::{closure#1}", required=False)
-    ok = False
-    if c1 is not None:
-        sh = [q.shape(c1.expr_of_call(t)) for bi, t in c1.calls()]
-        ok = any(q.wild("Iterator::map(IntoIterator::into_iter(^try(SourceMap::rewrite_with_mapping(arg1.sm,arg2)).1),closure:*)", s) or q.wild("IntoIterator::into_iter(^try(SourceMap::rewrite_with_mapping(arg1.sm,arg2)).1)", s) for s in sh)
-    ctx.check(ok, rule, fn, "raw_sources:by-mapping", "the raw x_facebook_sources are permuted by the same mapping")
-    c10 = ctx.facts.body(HREW + "::{closure#1}::{closure#0}", required=False)
-    rets = [q.shape(c10.expr_of_call(t)) for bi, t in c10.calls() if t["dest"]["l"] == 0] if c10 is not None else []
-    ctx.check(rets == ["Option::and_then(slice::get_mut(^arg2,cast<usize>(arg2)),fn:Option::take)"], rule, fn, "raw_sources:get_mut",
-              "each raw entry is looked up with the non-panicking get_mut at the old id", detail=str(rets))
+    MAPPING = "try(SourceMap::rewrite_with_mapping(arg1.sm,arg2)).1"
+    raws = [sh for l in sorted(b.var_names) for sh, _, _ in q.def_shapes(b, l, {}) if "FacebookScopeMapping" in b.local_ty(l)]
+    want_raw = "Option::map(var:Option<Vec<Option<Vec<FacebookScopeMapping>>>>,%s(Iterator::collect(Iterator::map(IntoIterator::into_iter(^%s),%s))))" % (LAM, MAPPING, TAKE % "^arg2")
+    ctx.check(want_raw in raws, rule, fn, "raw_sources:by-mapping", "the raw x_facebook_sources are permuted by the same mapping, each entry looked up with the non-panicking get_mut at the old id", detail=str(raws)[:500])
     import pf
     bodies = [b] + [x for x in ctx.facts.closures_of(HREW)]
     pf.check_bodies(ctx, rule, bodies)
@@ -264,20 +257,15 @@ def cache_coherence(ctx, rule):
     root_w = [(bi, si) for bi, si, s, it in b.locations() if not it and s["k"] == "assign" and _is_field(s["place"], "source_root")]
     cache_w = [(bi, si, q.shape(b.expr_of_rvalue(s["rv"]))) for bi, si, s, it in b.locations() if not it and s["k"] == "assign" and _is_field(s["place"], "sources_prefixed")]
     shapes = sorted(s for _, _, s in cache_w)
-    ok = len(shapes) == 2 and shapes[0] == "Option::None{}" and q.wild("Option::Some{0:Iterator::collect(Iterator::map(slice::iter(arg1.sources),closure:set_source_root::{closure#1}))}", shapes[1])
+    ROOT = "Option::filter(Option::as_deref(arg1.source_root),%s(Not(str::is_empty(p1))))" % LAM
+    ok = len(shapes) == 2 and shapes[0] == "Option::None{}" and shapes[1] == "Option::Some{0:Iterator::collect(Iterator::map(slice::iter(arg1.sources),%s(SourceMap::prefix_source(^some(%s),p1))))}" % (LAM, ROOT)
     ctx.check(ok, rule, b.path, "cache:rebuilt-from-all-sources", "the cache is rebuilt from *all* sources when the root is non-empty and cleared otherwise", detail=str(shapes))
     if root_w:
         ctx.check(must_pass(b, root_w[0][0], [bi for bi, _, _ in cache_w]) , rule, b.path, "cache:every-path", "after the root changes every path updates the cache")
     for bi, si, s in cache_w:
         if s.startswith("Option::Some"):
-            ctx.check(has_fact(b, bi, {}, ("variant_in", "Option::filter(Option::as_deref(arg1.source_root),closure:*)", (1,))), rule, b.path, "cache:some-when-nonempty",
-                      "the cache is filled exactly when the (filtered) root is present", ctx.site(b, bi, si))
-    fcl = ctx.facts.body("types::SourceMap::set_source_root::{closure#0}", required=False)
-    rets = [q.shape(fcl.expr_of_rvalue(s["rv"])) for bi, si, s, it in fcl.locations() if not it and s["k"] == "assign" and s["place"]["l"] == 0] if fcl else []
-    ctx.check(rets == ["Not(str::is_empty(arg2))"], rule, b.path, "filter:non-empty", "an empty root counts as no root", detail=str(rets))
-    mcl = ctx.facts.body("types::SourceMap::set_source_root::{closure#1}", required=False)
-    calls = [q.shape(mcl.expr_of_call(t)) for bi, t in mcl.calls() if t.get("resolved_local")] if mcl else []
-    ctx.check(calls == ["SourceMap::prefix_source(^some(Option::filter(Option::as_deref(arg1.source_root),closure:set_source_root::{closure#0})),arg2)"], rule, b.path, "cache:prefix_source", "each cached name is prefix_source(root, raw name)", detail=str(calls))
+            ctx.check(has_fact(b, bi, {}, *opt_fact("some", ROOT)), rule, b.path, "cache:some-when-nonempty",
+                      "the cache is filled exactly when the (filtered) root is present; an empty root counts as no root", ctx.site(b, bi, si))
     # set_source patches the cache entry with the current root
     s = ctx.body("types::SourceMap::set_source")
     calls = [q.shape(s.expr_of_call(t)) for bi, t in s.calls()]
@@ -499,7 +487,7 @@ def flatten_translation(ctx, rule):
     want = sorted(["Cow::Borrowed{0:regular(%s)}" % GS, "Cow::Borrowed{0:hermes(%s).sm}" % GS, "Cow::Owned{0:try(SourceMapIndex::flatten(index(%s)))}" % GS])
     ctx.check(sorted(ms) == want, rule, fn, "arms", "regular sections are borrowed, nested indexes flattened recursively (error propagated), Hermes sections use their inner map", detail=str(ms))
     errs = [bi for bi, si in q.err_variant_constructions(b, "CannotFlatten")]
-    ok = any(has_fact(b, bi, r, ("variant_in", "SourceMapSection::get_sourcemap(section)", (0,))) for bi in errs)
+    ok = any(has_fact(b, bi, r, *opt_fact("none", "SourceMapSection::get_sourcemap(section)")) for bi in errs)
     ctx.check(ok, rule, fn, "unresolved:error", "a section without an embedded map makes flatten fail with CannotFlatten")
     it = named(b, lambda s: s == "IntoIterator::into_iter(SourceMapIndex::sections(arg1))")
     it2 = [s for l in sorted(b.var_names) for s, _, _ in q.def_shapes(b, l, r) if s == "IntoIterator::into_iter(SourceMap::tokens(map))"]
